@@ -46,7 +46,8 @@ def run_history(ctx, seed):
         maxr = rng.choice([2, 3])
         v2cfg = (core, max(mx, core), minr, maxr)
     pw = PoolWorld(seed, proto, K=K, thr=3 * K // 4, nodes=nodes, p_preempt=rng.choice([0.0, 0.1, 0.3, 0.5]), never_convict=never, v2cfg=v2cfg,
-                   chunking=rng.random() < 0.3, keyspace='ks' if rng.random() < 0.35 else None)
+                   chunking=rng.random() < 0.3,
+                   keyspace='ks' if rng.random() < (0.6 if v2cfg and v2cfg[0] >= 2 else 0.35) else None)
     env, world, net, plan = pw.env, pw.world, pw.net, pw.plan
     nsteps = rng.randint(4, 30)
     shutdown_at = rng.randrange(nsteps) if rng.random() < 0.6 else None
@@ -55,7 +56,18 @@ def run_history(ctx, seed):
     info = {'seed': seed, 'proto': proto, 'id_space': K, 'nodes': nodes, 'keyspace': pw.keyspace, 'never_convict': never, 'v2cfg': v2cfg, 'steps': nsteps,
             'shutdown_at': shutdown_at, 'shutdown_how': shutdown_how if shutdown_at is not None else None}
     steps_log = []
-    stalled_initial_pool = nodes >= 2 and rng.random() < 0.3
+    def use_pattern():
+        pat = [rng.random() < 0.5 for _ in range(rng.randint(1, 4))]
+        if not any(pat):
+            pat[rng.randrange(len(pat))] = True
+        while sum(pat) > 2:
+            pat[pat.index(True)] = False
+        return pat
+    if pw.keyspace and nodes >= 2 and rng.random() < 0.5:
+        # a connection a pool constructor opened is dropped by the node instead of getting its USE answered (the other core connections are fine)
+        pw.use_script[pw.addrs[1]] = use_pattern()
+        info['use_script_initial'] = list(pw.use_script[pw.addrs[1]])
+    stalled_initial_pool = nodes >= 2 and not pw.use_script and rng.random() < 0.3
     if stalled_initial_pool:
         # the pool of the first host is still being built when connect() returns (its connections are stuck in their set-up); whatever makes the session
         # look at its pools meanwhile (another host going down ...) can start a second build for the same host; both finish when the node answers
@@ -156,8 +168,15 @@ def run_history(ctx, seed):
                             n._pattern = pat
                     if rng.random() < 0.3:
                         pw.hold_handshake[0] = True
+                    if pw.keyspace and rng.random() < 0.6:
+                        pw.use_script[str(c.endpoint.address)] = use_pattern()      # fate of the USE round trips when this host's pool is rebuilt
                     steps_log.append(('fail', c.sim_id, 'reset' if how else 'eof', [n._refuse for n in net.nodes.values()], pw.hold_handshake[0]))
                     net.server_close(c, reset=how)
+                    if pw.keyspace and not never and rng.random() < 0.5:
+                        # with the default conviction policy a host goes down (and its pool is rebuilt) once no connection to it is open: fail them all
+                        for c2 in pw.live_pool_conns():
+                            if c2 is not c and c2.endpoint == c.endpoint:
+                                net.server_close(c2, reset=rng.random() < 0.5)
             elif r < 0.84:
                 if pw.held_handshakes or pw.hold_handshake[0]:
                     pw.hold_handshake[0] = False
@@ -283,7 +302,39 @@ def run_history(ctx, seed):
                         kinds[u] = 'direct-rows'
                         world.spawn(lambda u=u, p=ps[0]: pw.direct_request(p, u, 'rows'), name='borrower-%d' % u)
                     steps_log.append(('borrower-threads',))
-                if ps and rng.random() < 0.4:
+                if ps and never and rng.random() < 0.35:
+                    # a dead connection is handed to the pool by a thread of its own (what the idle-heartbeat does with a connection it finds closed) while
+                    # the host's lock is busy (Cluster.on_up / on_down hold it for long stretches) and the orphan-threshold replacement completes meanwhile
+                    pw.hold_handshake[0] = True
+                    u = new_uid()
+                    kinds[u] = 'rows'
+                    plan.set(u, 'rows')
+                    rec.execute_async(session, u, timeout=30.0)
+                    world.settle(advance=False)
+                    old_conns = [c for c in pw.live_pool_conns() if c.orphaned_threshold_reached and owner_of(c) is ps[0] and ps[0]._connection is c]
+                    if old_conns:
+                        x = old_conns[0]
+                        how = rng.random() < 0.6
+                        net.server_close(x, reset=how)
+                        world.settle(advance=False)
+                        hold_lock = rng.random() < 0.8
+                        if hold_lock:
+                            ps[0].host.lock.acquire()
+                        try:
+                            world.spawn(lambda p=ps[0], x=x: p.return_connection(x), name='returner-%d' % x.sim_id)
+                            if rng.random() < 0.8:
+                                world.settle(advance=False)
+                            pw.hold_handshake[0] = False
+                            pw.release_handshakes()
+                            world.settle(advance=False)
+                        finally:
+                            if hold_lock:
+                                ps[0].host.lock.release()
+                        world.settle(advance=False)
+                        steps_log.append(('dead-connection-returned-while-replacement-completes', x.sim_id, 'reset' if how else 'eof', hold_lock))
+                    pw.hold_handshake[0] = False
+                    pw.release_handshakes()
+                elif ps and rng.random() < 0.4:
                     # the overloaded connection fails at the moment its replacement completes: the replacement's set-up is kept back until the pool waits
                     # for it, then the node lets it finish and resets the old connection in the same breath
                     pw.hold_handshake[0] = True
